@@ -11,6 +11,10 @@ from . import common, families as F
 from .layouts import check_dispatch, layout_classes
 from .c08 import _inc
 
+from . import forward
+
+from .c13 import lockdown
+
 META = {
     'explanation': (
         "Equivalence of `segment` on/off on single-layout text is not decided "
@@ -25,7 +29,7 @@ META = {
         "layout classes; sec_within producer/consumer protocol (tags, FIFO "
         "consumption, prefix on 0 / suffix otherwise, exactly one component, "
         "warning) and its ordering before tracts are constructed."),
-    'families': ['TBL', 'LOCK', 'ORDER', 'PAIR'],
+    'families': ['TBL', 'LOCK', 'ORDER', 'PAIR', 'FORWARD', 'DEADPARAM', 'SIB-DEFAULTS'],
 }
 
 
@@ -39,6 +43,8 @@ def check(ctx):
     # table must not swallow description vocabulary
     from .c01 import word_tables
     ctx.attempt(word_tables)
+    ctx.attempt(forward.check_all, module_suffixes=('plssdesc.plss_parse', 'plssdesc.plssdesc'))
+    ctx.attempt(lockdown, ctx.repo.func('PLSSDesc.parse'), only=('sec_colon_required', 'sec_colon_cautious', 'segment', 'sec_within', 'layout'))
 
 
 def _colon(ctx):
